@@ -121,7 +121,7 @@ func (g *gen) scheme() string {
 	case g.p(85):
 		return pick(g, schemePool)
 	case g.p(50):
-		return g.label(64)
+		return g.label(pick(g, []int{63, 64, 64, 65, 65, 66}))
 	default:
 		return g.label(1 + g.n(70))
 	}
